@@ -200,4 +200,37 @@ mod n {
             },
         );
     }
+
+    // contract P on sets of n boxes that share their centre at a value that is not a dyadic fraction: the f32 mean of n
+    // equal centres can round just above or just below the centre itself, so "everything left" and "everything right"
+    // both occur; P (both halves non-empty, nothing lost) must hold either way
+    #[test]
+    fn n_c13_partition_identical() {
+        drive("C13.partition.identical", "partition_elements_by_centroid on n = 2..80 boxes with the same centre c in {0.1, 3.9, 1/3, 0.001, 123.456, -3.9, 7.7} on all axes, all the same size or growing: contract P; BVH::build (leaf size 2 / 30) terminates on the same sets", |c| {
+            let n = 2 + c.pick(79);
+            let centre = c.of(&[0.1f32, 3.9, 1.0 / 3.0, 0.001, 123.456, -3.9, 7.7]);
+            let growing = c.flag();
+            c.note(format!("{} boxes centred at {} ({})", n, centre, if growing { "growing" } else { "identical" }));
+            let set: Vec<Obst> = (0..n)
+                .map(|i| {
+                    let h = if growing { 0.5 + 0.25 * i as f32 } else { 0.5 };
+                    Obst { aabb: AABB::new(point![centre - h, centre - h, centre - h], point![centre + h, centre + h, centre + h]), hit: i % 2 == 0, tag: i as u32 }
+                })
+                .collect();
+            let (l, r) = BVH::partition_elements_by_centroid(set.clone());
+            c.check("C13.partition.nothing_lost", l.len() + r.len() == n, || format!("left {} + right {} of {}", l.len(), r.len(), n));
+            c.check("C13.partition.both_nonempty", !l.is_empty() && !r.is_empty(), || format!("split {} / {} of {} boxes centred at {}: the builder cannot make progress on this set", l.len(), r.len(), n, centre));
+            let leaf = c.of(&[2usize, 30]);
+            let s2 = set.clone();
+            match run_with_timeout(5, move || BVH::build(s2, leaf)) {
+                None => {
+                    c.check("C13.build.terminates", false, || format!("BVH::build of {} boxes centred at {} (leaf size {}) did not terminate within 5 s", n, centre, leaf));
+                    c.stop();
+                }
+                Some(_) => c.check("C13.build.terminates", true, || String::new()),
+            }
+            c.nontrivial(format!("{} {} {}", n, centre, growing));
+            c.sample(|| format!("{} boxes at {} -> {} / {}", n, centre, l.len(), r.len()));
+        });
+    }
 }
